@@ -264,7 +264,7 @@ PLeaf(cs, pos) ==
       [] u.kind = "KeywordAsm" -> PAsm(cs, u.i + u.n)
       [] u.kind = "KeywordTrue" -> Ok([k |-> "bool", b |-> TRUE], u.i + u.n)
       [] u.kind = "KeywordFalse" -> Ok([k |-> "bool", b |-> FALSE], u.i + u.n)
-      [] OTHER -> Fail(u.i)
+      [] OTHER -> Fail(pos)               \* "expected expression", reported where the cursor stands
 
 \* `{' expr { (line break | `,') expr } `}'
 PBlockLoop(cs, pos, acc) ==
@@ -437,12 +437,12 @@ PPattern(cs, p, pat, sub) ==
     IF p > Len(cs) \/ Next(cs, p).kind = "HeavyArrowRight" THEN [ok |-> TRUE, pat |-> pat, pos |-> p, empty |-> FALSE]
     ELSE LET t == TokenAt(cs, p)
              q == p + t.n
-             bad == [ok |-> FALSE, pat |-> pat, pos |-> p, empty |-> FALSE]
+             Bad(at) == [ok |-> FALSE, pat |-> pat, pos |-> at, empty |-> FALSE]
          IN IF t.kind = "BraceOpen"
             THEN IF pat = <<>> /\ sub /\ Eat(cs, q, "BraceClose") # 0
                  THEN [ok |-> TRUE, pat |-> pat, pos |-> Eat(cs, q, "BraceClose"), empty |-> TRUE]
                  ELSE LET id == Eat(cs, q, "Identifier") IN
-                      IF id = 0 THEN bad
+                      IF id = 0 THEN Bad(q)
                       ELSE LET name == Txt(cs, Next(cs, q))
                                col == Eat(cs, id, "Colon")
                                tyid == IF col = 0 THEN 0 ELSE Eat(cs, col, "Identifier")
@@ -450,14 +450,14 @@ PPattern(cs, p, pat, sub) ==
                                      ELSE IF tyid = 0 THEN [bad |-> TRUE]
                                      ELSE TypeOf(Txt(cs, Next(cs, col)))
                                after == IF col = 0 THEN id ELSE tyid
-                           IN IF ty.bad THEN bad
+                           IN IF ty.bad THEN Bad(IF tyid = 0 THEN col ELSE Next(cs, col).i)
                               ELSE LET c == Eat(cs, after, "BraceClose") IN
-                                   IF c = 0 THEN bad
+                                   IF c = 0 THEN Bad(after)
                                    ELSE PPattern(cs, c, Append(pat, [p |-> "par", name |-> name, ty |-> ty.ty, n |-> ty.n, tn |-> ty.tn]), sub)
             ELSE IF AllowedInPattern(t.kind)
             THEN PPattern(cs, q, pat \o [i \in 1..t.n |-> [p |-> "exact", c |-> Lower(cs[p + i - 1])]], sub)
             ELSE IF t.kind = "Whitespace" THEN PPattern(cs, q, Append(pat, [p |-> "ws"]), sub)
-            ELSE bad
+            ELSE Bad(p)
 
 \* { pattern => expr line-break } up to `}'
 PRules(cs, pos, acc, sub) ==
@@ -466,7 +466,8 @@ PRules(cs, pos, acc, sub) ==
              pt == PPattern(cs, start, <<>>, sub) IN
          IF ~pt.ok THEN Fail(pt.pos)
          ELSE LET a == Eat(cs, pt.pos, "HeavyArrowRight") IN
-              IF a = 0 \/ (pt.pat = <<>> /\ ~pt.empty) THEN Fail(pt.pos)
+              IF a = 0 THEN Fail(pt.pos)
+              ELSE IF pt.pat = <<>> /\ ~pt.empty THEN Fail(Next(cs, pt.pos).i)        \* "expected pattern", in front of the arrow
               ELSE LET e == PExpr(cs, a) IN
                    IF ~e.ok THEN e
                    ELSE LET lb == AfterLB(cs, e.pos) IN
@@ -483,7 +484,7 @@ PRuledef(cs, pos, sub) ==
          IF ~rs.ok THEN rs
          ELSE LET c == Eat(cs, rs.pos, "BraceClose")
                   lb == IF c = 0 THEN 0 ELSE AfterLB(cs, c) IN
-              IF lb = 0 THEN Fail(rs.pos)
+              IF lb = 0 THEN Fail(IF c = 0 THEN rs.pos ELSE c)
               ELSE Ok([k |-> "ruledef", sub |-> sub, hasname |-> id # 0, name |-> name, rules |-> rs.ast], lb)
 
 \* fields of a #bankdef: [ # ] name [ = expr | expr (after #, on the same line) ] ( , | line break )
@@ -495,12 +496,12 @@ PFields(cs, pos, acc) ==
              id == Eat(cs, p1, "Identifier") IN
          IF id = 0 THEN Fail(p1)
          ELSE LET name == Txt(cs, Next(cs, p1)) IN
-              IF \E i \in 1..Len(acc) : acc[i].name = name THEN Fail(p1)
+              IF \E i \in 1..Len(acc) : acc[i].name = name THEN Fail(Next(cs, p1).i)
               ELSE LET direct == h # 0 /\ ~HasLB(cs, id)
                        eq == IF direct THEN 0 ELSE Eat(cs, id, "Equal")
                        x == IF direct THEN PExpr(cs, id) ELSE IF eq # 0 THEN PExpr(cs, eq) ELSE Ok(<<>>, id)
                    IN IF ~x.ok THEN x
-                      ELSE LET f == [name |-> name, some |-> direct \/ eq # 0, e |-> x.ast]
+                      ELSE LET f == [name |-> name, some |-> direct \/ eq # 0, e |-> x.ast, at |-> Next(cs, p1).i]
                                c == Eat(cs, x.pos, "Comma")
                                lb == AfterLB(cs, x.pos)
                            IN IF c # 0 THEN PFields(cs, c, Append(acc, f))
@@ -515,13 +516,15 @@ FieldExpr(fs, name) ==
 PBankdef(cs, pos) ==
     LET id == Eat(cs, pos, "Identifier")
         b == IF id = 0 THEN 0 ELSE Eat(cs, id, "BraceOpen") IN
-    IF b = 0 THEN Fail(pos)
+    IF b = 0 THEN Fail(IF id = 0 THEN pos ELSE id)
     ELSE LET fs == PFields(cs, b, <<>>) IN
          IF ~fs.ok THEN fs
-         ELSE IF \E i \in 1..Len(fs.ast) : fs.ast[i].name \notin FieldNames THEN Fail(b)
+         ELSE IF \E i \in 1..Len(fs.ast) : fs.ast[i].name \notin FieldNames
+         THEN Fail(fs.ast[CHOOSE i \in 1..Len(fs.ast) : fs.ast[i].name \notin FieldNames
+                                     /\ \A j \in 1..(i - 1) : fs.ast[j].name \in FieldNames].at)     \* the first field that is not one
          ELSE LET c == Eat(cs, fs.pos, "BraceClose")
                   lb == IF c = 0 THEN 0 ELSE AfterLB(cs, c) IN
-              IF lb = 0 THEN Fail(fs.pos)
+              IF lb = 0 THEN Fail(IF c = 0 THEN fs.pos ELSE c)
               ELSE Ok([k |-> "bankdef", name |-> Txt(cs, Next(cs, pos)),
                        bits |-> FieldExpr(fs.ast, S_bits), labelalign |-> FieldExpr(fs.ast, S_labelalign),
                        addr |-> FieldExpr(fs.ast, S_addr), addr_end |-> FieldExpr(fs.ast, S_addr_end),
@@ -540,12 +543,12 @@ PParams(cs, pos, acc) ==
 PFn(cs, pos) ==
     LET id == Eat(cs, pos, "Identifier")
         p == IF id = 0 THEN 0 ELSE Eat(cs, id, "ParenOpen") IN
-    IF p = 0 THEN Fail(pos)
+    IF p = 0 THEN Fail(IF id = 0 THEN pos ELSE id)
     ELSE LET ps == PParams(cs, p, <<>>) IN
          IF ~ps.ok THEN ps
          ELSE LET c == Eat(cs, ps.pos, "ParenClose")
                   a == IF c = 0 THEN 0 ELSE Eat(cs, c, "HeavyArrowRight") IN
-              IF a = 0 THEN Fail(ps.pos)
+              IF a = 0 THEN Fail(IF c = 0 THEN ps.pos ELSE c)
               ELSE LET e == PExpr(cs, a) IN
                    IF ~e.ok THEN e
                    ELSE Ok([k |-> "fn", name |-> Txt(cs, Next(cs, pos)), params |-> ps.ast, body |-> e.ast], e.pos)
@@ -554,13 +557,16 @@ PFn(cs, pos) ==
 PConst(cs, pos) ==
     LET p == Eat(cs, pos, "ParenOpen")
         a == IF p = 0 THEN 0 ELSE Eat(cs, p, "Identifier")
-        attrOK == p = 0 \/ (a # 0 /\ Txt(cs, Next(cs, p)) = S_noemit /\ Eat(cs, a, "ParenClose") # 0)
-        p1 == IF p = 0 THEN pos ELSE IF attrOK THEN Eat(cs, a, "ParenClose") ELSE pos IN
-    IF ~attrOK THEN Fail(pos)
+        attrWord == a # 0 /\ Txt(cs, Next(cs, p)) = S_noemit
+        close == IF attrWord THEN Eat(cs, a, "ParenClose") ELSE 0
+        p1 == IF p = 0 THEN pos ELSE close IN
+    IF p # 0 /\ a = 0 THEN Fail(p)                              \* an attribute name is expected
+    ELSE IF p # 0 /\ ~attrWord THEN Fail(Next(cs, p).i)         \* "invalid attribute", at the word
+    ELSE IF p # 0 /\ close = 0 THEN Fail(a)
     ELSE LET d == SymDots(cs, p1, 0)
              id == Eat(cs, d[2], "Identifier")
              e == IF id = 0 THEN 0 ELSE Eat(cs, id, "Equal") IN
-         IF e = 0 THEN Fail(d[2])
+         IF e = 0 THEN Fail(IF id = 0 THEN d[2] ELSE id)
          ELSE LET x == PExpr(cs, e) IN
               IF ~x.ok THEN x
               ELSE LET lb == AfterLB(cs, x.pos) IN
@@ -573,11 +579,12 @@ PDirective(cs, pos) ==
     IF id = 0 THEN Fail(h)
     ELSE LET name == LowerSeq(Txt(cs, Next(cs, h)))
              LineOnly(ast) == LET lb == AfterLB(cs, id) IN IF lb = 0 THEN Fail(id) ELSE Ok(ast, lb)
+             hashAt == Next(cs, pos).i           \* messages about the directive as a whole point at its `#'
          IN
          IF name = S_d THEN PData(cs, id, -1, <<>>)
          ELSE IF name[1] = 100 /\ AllDigits(Tail(name)) /\ DecClass(Tail(name)).c # "over"
          THEN LET d == DecClass(Tail(name)) IN
-              IF d.c = "huge" \/ d.v >= MaxBits THEN Fail(h) ELSE PData(cs, id, d.v, <<>>)
+              IF d.c = "huge" \/ d.v >= MaxBits THEN Fail(hashAt) ELSE PData(cs, id, d.v, <<>>)
          ELSE CASE name = S_addr -> ExprLine(cs, id, "addr")
                 [] name = S_align -> ExprLine(cs, id, "align")
                 [] name = S_res -> ExprLine(cs, id, "res")
@@ -585,7 +592,7 @@ PDirective(cs, pos) ==
                 [] name = S_bank ->
                       LET b == Eat(cs, id, "Identifier")
                           lb == IF b = 0 THEN 0 ELSE AfterLB(cs, b) IN
-                      IF lb = 0 THEN Fail(id) ELSE Ok([k |-> "bank", name |-> Txt(cs, Next(cs, id))], lb)
+                      IF lb = 0 THEN Fail(IF b = 0 THEN id ELSE b) ELSE Ok([k |-> "bank", name |-> Txt(cs, Next(cs, id))], lb)
                 [] name = S_bankdef -> PBankdef(cs, id)
                 [] name = S_const -> PConst(cs, id)
                 [] name = S_fn -> PFn(cs, id)
@@ -594,9 +601,12 @@ PDirective(cs, pos) ==
                       LET s == Eat(cs, id, "String")
                           c == IF s = 0 THEN [ok |-> FALSE, cps |-> <<>>] ELSE StrContents(Txt(cs, Next(cs, id)))
                           lb == IF s = 0 THEN 0 ELSE AfterLB(cs, s) IN
-                      IF ~c.ok \/ lb = 0 THEN Fail(id) ELSE Ok([k |-> "include", file |-> c.cps], lb)
+                      IF s = 0 THEN Fail(id)
+                      ELSE IF ~c.ok THEN Fail(Next(cs, id).i)             \* a bad escape: at the string
+                      ELSE IF lb = 0 THEN Fail(s)
+                      ELSE Ok([k |-> "include", file |-> c.cps], lb)
                 [] name = S_once -> LineOnly([k |-> "once"])
                 [] name = S_ruledef -> PRuledef(cs, id, FALSE)
                 [] name = S_subruledef -> PRuledef(cs, id, TRUE)
-                [] OTHER -> Fail(h)          \* #bits, #labelalign, #noemit (deprecated as statements) and unknown directives
+                [] OTHER -> Fail(hashAt)     \* #bits, #labelalign, #noemit (deprecated as statements) and unknown directives
 =============================================================================
